@@ -65,6 +65,15 @@ func setLabelFn(stores context2.Stores, repo, name, bundleID string) func() (int
 	}
 }
 
+// setLabelWithFn assigns through a Label value built earlier (an assignment happens when the descriptor is uploaded,
+// whenever it was built): the same value may be used for several assignments.
+func setLabelWithFn(l *core.Label, stores context2.Stores, repo, bundleID string) func() (interface{}, error) {
+	return func() (interface{}, error) {
+		b := core.NewBundle(core.Repo(repo), core.ContextStores(stores), core.BundleID(bundleID), core.Logger(nopLog))
+		return nil, l.UploadDescriptor(bg, b)
+	}
+}
+
 // getLabelFn returns the operation "label get": the bundle id, or core's not-found error.
 func getLabelFn(stores context2.Stores, repo, name string) func() (interface{}, error) {
 	return func() (interface{}, error) {
